@@ -15,7 +15,7 @@ from twosigma.memento.storage_memory import MemoryStorageBackend
 import verif_names
 import verif_side
 
-CLUSTERS = ["vn", "c-1.x_y"]
+CLUSTERS = ["vn", "c-1.x_y", ".hid_1"]
 
 
 def chars(s):
